@@ -19,6 +19,8 @@ def run(ctx):
     cov = orswot_ops.judge(ctx, results, "C04", [("clean_edges", "no edge with the C04 side condition true")])
     cov["own_tests_actor_traces"] = actor_traces.run_repo_tests(ctx, ["C04"])
     cov["traces_validated_against_impl"] += cov["own_tests_actor_traces"]["actors"]
+    cov["long_lived_actors"] = actor_traces.long_lived_actors(ctx, ["C04"])
+    cov["traces_validated_against_impl"] += cov["long_lived_actors"]["actors"]
     return vlib.finish(ctx, "model_checking", cov, ASSUMPTIONS)
 
 
